@@ -7,7 +7,7 @@ disequalities).  "False" means *not proven*, never "satisfiable".
 """
 from math import gcd
 
-from .lin import (CNT_BOUNDS, INT_MAX, LEN_MAX, Lin, atoms_deep, dnf, f_not, lin, lit_atoms, neg_lit, sub_lins)
+from .lin import (CNT_BOUNDS, INT_MAX, INT_MIN, key_signed, LEN_MAX, Lin, atoms_deep, dnf, f_not, lin, lit_atoms, neg_lit, sub_lins)
 
 STATS = {"unsat_calls": 0, "fm_runs": 0, "memo_hits": 0, "giveups": 0}
 _MEMO = {}
@@ -22,7 +22,7 @@ def atom_axioms(atoms, present):
         A = Lin.atom(a)
         k = a[0]
         if k == "sym":
-            ax.append(("le", -A))
+            ax.append(("le", lin(INT_MIN.get(a[2], 0)) - A))
             ax.append(("le", A - INT_MAX.get(a[2], 2**64 - 1)))
         elif k == "len":
             ax.append(("le", -A))
@@ -43,7 +43,7 @@ def atom_axioms(atoms, present):
         elif k == "div":
             m = ("mod", a[1], a[2])
             t = Lin.from_key(a[1])
-            if t.c >= 0 and all(c >= 0 for c in t.t.values()):
+            if not key_signed(a[1]):
                 ax.append(("le", -A))       # t >= 0 (every atom is non-negative), so is its quotient
             if m not in present:
                 ax.append(("le", A.scale(a[2]) - t))
@@ -60,7 +60,7 @@ def atom_axioms(atoms, present):
         elif k == "k":
             ax.append(("le", -A))
         elif k == "elem":
-            ax.append(("le", -A))
+            ax.append(("le", lin(INT_MIN.get(a[4], 0)) - A))
             ax.append(("le", A - INT_MAX.get(a[4], 2**64 - 1)))
         elif k == "ps":
             ax.append(("le", -A))
@@ -69,7 +69,7 @@ def atom_axioms(atoms, present):
             if kk.is_const() and kk.c == 0:
                 ax.append(("eq", A))
         elif k == "opq":
-            ax.append(("le", -A))
+            ax.append(("le", lin(INT_MIN.get(a[2], 0)) - A))
             ax.append(("le", A - INT_MAX.get(a[2], 2**64 - 1)))
     return ax
 
